@@ -50,6 +50,24 @@ pub struct Cell {
     /// pattern; keys left out where the value is the documented default) instead of the builder
     #[serde(default)]
     pub via_config: bool,
+    /// further environment of the child (None = removed): variables other conventions look at - TERM, FORCE_COLOR,
+    /// COLORTERM, CI ... - none of which has a say in the colour policy of the statement
+    #[serde(default)]
+    pub extra_env: Vec<(String, Option<String>)>,
+    /// this many threads log the five records `repeat` times each through the ONE appender, at the same time, with a
+    /// message that takes a moment to format (part threads)
+    #[serde(default)]
+    pub threads: u8,
+}
+
+/// A message whose formatting takes a moment (another thread gets the chance to call append meanwhile).
+struct SlowMsg<'a>(&'a str);
+
+impl<'a> std::fmt::Display for SlowMsg<'a> {
+    fn fmt(&self, f: &mut std::fmt::Formatter) -> std::fmt::Result {
+        std::thread::sleep(Duration::from_micros(300));
+        f.write_str(self.0)
+    }
 }
 
 /// Refuses records whose message is "refuse-me"; everything else goes to the real encoder.
@@ -169,6 +187,39 @@ pub fn child_main(args: &[String]) -> i32 {
     } else {
         None
     };
+    if cell.threads >= 2 {
+        let app: Arc<Box<dyn Append>> = Arc::new(app);
+        let failed = Arc::new(std::sync::atomic::AtomicBool::new(false));
+        let barrier = Arc::new(std::sync::Barrier::new(cell.threads as usize));
+        let hs: Vec<_> = (0..cell.threads)
+            .map(|_| {
+                let (app, failed, barrier, repeat) = (app.clone(), failed.clone(), barrier.clone(), cell.repeat.max(1));
+                std::thread::spawn(move || {
+                    barrier.wait();
+                    for _ in 0..repeat {
+                        for r in records() {
+                            let text = r.message();
+                            let rec_ok = app
+                                .append(&log::Record::builder().args(format_args!("{}", SlowMsg(&text))).level(r.level()).target(&r.target).module_path(r.module.as_deref()).line(r.line).build())
+                                .is_ok();
+                            if !rec_ok {
+                                failed.store(true, std::sync::atomic::Ordering::SeqCst);
+                            }
+                        }
+                    }
+                })
+            })
+            .collect();
+        for h in hs {
+            if h.join().is_err() {
+                return 6;
+            }
+        }
+        if failed.load(std::sync::atomic::Ordering::SeqCst) {
+            return 3;
+        }
+        unsafe { libc::_exit(0) }
+    }
     for _ in 0..cell.repeat.max(1) {
         for (i, r) in records().into_iter().enumerate() {
             if cell.refuse_one && i == 3 {
@@ -279,6 +330,12 @@ fn run_cell(tmp: &Path, cell: &Cell) -> Result<ChildRun, String> {
     }
     if let Some(v) = &cell.clicolor_force {
         cmd.env("CLICOLOR_FORCE", v);
+    }
+    for (k, v) in &cell.extra_env {
+        match v {
+            Some(v) => cmd.env(k, v),
+            None => cmd.env_remove(k),
+        };
     }
     let mut masters: [Option<RawFd>; 2] = [None, None];
     let mut kept_slaves: Vec<RawFd> = vec![];
@@ -602,7 +659,7 @@ fn cell_at(idx: usize, pat: Pat) -> Cell {
     let tg = i % 2;
     i /= 2;
     let to = i % 2;
-    Cell { no_color: v(nc), clicolor: v(cc), clicolor_force: v(cf), stdout_tty: so == 1, stderr_tty: se == 1, target_stderr: tg == 1, tty_only: to == 1, pat, also_other: false, repeat: 1, literal: None, tty_only_first: false, refuse_one: false, via_config: false }
+    Cell { no_color: v(nc), clicolor: v(cc), clicolor_force: v(cf), stdout_tty: so == 1, stderr_tty: se == 1, target_stderr: tg == 1, tty_only: to == 1, pat, also_other: false, repeat: 1, literal: None, tty_only_first: false, refuse_one: false, via_config: false, extra_env: vec![], threads: 0 }
 }
 
 pub const CELLS: usize = 27 * 2 * 2 * 2 * 2;
@@ -738,7 +795,7 @@ pub fn check_shared(tmp: &Path, c: &Shared, obs: &mut Obs) -> CaseResult {
         Node::Fmt { kind: Kind::Highlight(vec![Node::Fmt { kind: Kind::Message, long: false, spec: None }]), long: false, spec: None },
         Node::Fmt { kind: Kind::Newline, long: false, spec: None },
     ];
-    let cell = Cell { no_color: None, clicolor: None, clicolor_force: Some("1".into()), stdout_tty: false, stderr_tty: false, target_stderr: true, tty_only: false, pat, also_other: false, repeat: c.repeat, literal: None, tty_only_first: false, refuse_one: false, via_config: false };
+    let cell = Cell { no_color: None, clicolor: None, clicolor_force: Some("1".into()), stdout_tty: false, stderr_tty: false, target_stderr: true, tty_only: false, pat, also_other: false, repeat: c.repeat, literal: None, tty_only_first: false, refuse_one: false, via_config: false, extra_env: vec![], threads: 0 };
     let file = dir.join("cell.json");
     std::fs::write(&file, serde_json::to_string(&cell).unwrap()).unwrap();
     let mut fds = [0 as libc::c_int; 2];
@@ -775,8 +832,83 @@ pub fn check_shared(tmp: &Path, c: &Shared, obs: &mut Obs) -> CaseResult {
     Ok(())
 }
 
+/// Several threads of one process log through one console appender at the same time: every record arrives, whole,
+/// with its escape sequences intact - with colour on (forced on a pipe / terminal) and off alike.
+#[derive(Serialize, Deserialize, Debug, Clone)]
+pub struct Threads {
+    pub threads: u8,
+    pub repeat: usize,
+    pub colour: bool,
+    pub stderr: bool,
+    pub tty: bool,
+}
+
+pub fn check_threads(tmp: &Path, c: &Threads, obs: &mut Obs) -> CaseResult {
+    let pat = vec![
+        Node::Fmt { kind: Kind::Highlight(vec![Node::Fmt { kind: Kind::Level, long: false, spec: None }, Node::Lit { text: " ".into(), esc: 0 }, Node::Fmt { kind: Kind::Message, long: false, spec: None }]), long: false, spec: None },
+        Node::Fmt { kind: Kind::Newline, long: false, spec: None },
+    ];
+    let cell = Cell {
+        no_color: if c.colour { None } else { Some("1".into()) },
+        clicolor: None,
+        clicolor_force: if c.colour { Some("1".into()) } else { None },
+        stdout_tty: c.tty && !c.stderr,
+        stderr_tty: c.tty && c.stderr,
+        target_stderr: c.stderr,
+        tty_only: false,
+        pat: pat.clone(),
+        also_other: false,
+        repeat: c.repeat,
+        literal: None,
+        tty_only_first: false,
+        refuse_one: false,
+        via_config: false,
+        extra_env: vec![],
+        threads: c.threads,
+    };
+    let run = match run_cell(tmp, &cell) {
+        Ok(r) => r,
+        Err(e) => {
+            eprintln!("[lv] C18: cannot run a child with the requested terminals ({}): infrastructure trouble, not a pass", e);
+            std::process::exit(2);
+        }
+    };
+    ensure!(run.code == Some(0), "C18:child-failed", "child with {} logging threads exited with {:?}; stderr {:?}", c.threads, run.code, String::from_utf8_lossy(&run.stderr[..run.stderr.len().min(300)]));
+    let bytes = if c.stderr { &run.stderr } else { &run.stdout };
+    let (text, seqs) = strip_sgr(bytes).map_err(|e| Failure { sig: "C18:torn-escape".into(), msg: format!("{} threads through one appender: {}", c.threads, e) })?;
+    let env = Env { thread_name: "main".into(), debug_build: cfg!(debug_assertions), now_secs: 0 };
+    let expected: Vec<String> = records().iter().map(|r| render(&pat, r, &env)).collect();
+    let text = String::from_utf8_lossy(&text).to_string();
+    let mut counts = vec![0usize; expected.len()];
+    for line in text.split_inclusive('\n') {
+        match expected.iter().position(|e| e == line) {
+            Some(i) => counts[i] += 1,
+            None => return fail("C18:text-differs", format!("{} threads through one appender (colour {}): the stream holds {:?}, which is none of the records logged (records interleaved or cut)", c.threads, c.colour, line)),
+        }
+    }
+    let want = c.threads as usize * c.repeat.max(1);
+    ensure!(counts.iter().all(|n| *n == want), "C18:text-differs", "{} threads x {} rounds through one appender (colour {}): each of the five records must arrive {} times, arrived {:?} (a record was dropped or duplicated)", c.threads, c.repeat, c.colour, want, counts);
+    if c.colour {
+        ensure!(seqs.len() >= want * 5, "C18:no-escapes-when-enabled:threads", "colour is forced but only {} escape sequences arrived for {} highlighted records", seqs.len(), want * 5);
+    } else {
+        ensure!(seqs.is_empty(), "C18:escapes-when-disabled:threads", "colour is disabled but {} escape sequences arrived", seqs.len());
+    }
+    obs.sub_evals += (want * 5) as u64;
+    obs.nontrivial = true;
+    obs.class(format!("threads-through-one-appender:colour={}", c.colour));
+    Ok(())
+}
+
 pub fn run(run: &Run) {
     let tmp = run.tmp.clone();
+    if run.worker.0 == 2 % run.worker.1 {
+        for (i, (threads, repeat)) in [(2u8, 40usize), (4, 25), (8, 12), (3, 30)].into_iter().enumerate() {
+            for colour in [true, false] {
+                let t = tmp.clone();
+                run.eval_one("threads", &Threads { threads, repeat, colour, stderr: i % 2 == 0, tty: i == 1 }, &move |c: &Threads, o: &mut Obs| check_threads(&t, c, o));
+            }
+        }
+    }
     if run.worker.0 == 0 {
         let t9 = tmp.clone();
         run.eval_one("shared-pipe", &Shared { children: 3, repeat: run.tier.pick(600, 6000) }, &move |c: &Shared, o: &mut Obs| check_shared(&t9, c, o));
@@ -816,6 +948,23 @@ pub fn run(run: &Run) {
             cell.tty_only_first = (idx / 3 + pass) % 2 == 0;
             cell.refuse_one = (idx / 7 + pass) % 3 == 0;
             cell.via_config = (idx / 2 + pass) % 3 == 1;
+            // what other colour conventions look at is none of this appender's business
+            let s = |x: &str| Some(x.to_string());
+            let distractors: [Vec<(&str, Option<String>)>; 12] = [
+                vec![("TERM", s("dumb"))],
+                vec![("TERM", s("xterm-256color")), ("COLORTERM", s("truecolor"))],
+                vec![("TERM", None)],
+                vec![("FORCE_COLOR", s("1"))],
+                vec![("TERM", s("dumb")), ("CI", s("true"))],
+                vec![("FORCE_COLOR", s("0")), ("TERM", s(""))],
+                vec![],
+                vec![("TERM", s("dumb")), ("COLORTERM", s(""))],
+                vec![("NOCOLOR", s("1")), ("COLOR", s("never"))],
+                vec![("TERM", s("unknown")), ("TERM_PROGRAM", s("Apple_Terminal"))],
+                vec![("CLICOLOR_FORCE_", s("1")), ("NO_COLORS", s("1"))],
+                vec![("TERM", s("linux")), ("CI", s("1"))],
+            ];
+            cell.extra_env = distractors[(idx + 5 * pass) % 12].iter().map(|(k, v)| (k.to_string(), v.clone())).collect();
             if !run.eval_one("matrix", &cell, &move |c: &Cell, o: &mut Obs| check_cell(&t2, c, o)) {
                 ok = false;
                 break 'outer;
@@ -839,7 +988,7 @@ pub fn run(run: &Run) {
                         if idx % run.worker.1 != run.worker.0 {
                             continue;
                         }
-                        let cell = Cell { no_color: None, clicolor: None, clicolor_force: if k % 2 == 0 { Some("1".into()) } else { None }, stdout_tty: tty && !target_stderr, stderr_tty: tty && target_stderr, target_stderr, tty_only: false, pat: pat.clone(), also_other: false, repeat: 1, literal: Some(k), tty_only_first: k % 2 == 1, refuse_one: false, via_config: k % 3 == 2 };
+                        let cell = Cell { no_color: None, clicolor: None, clicolor_force: if k % 2 == 0 { Some("1".into()) } else { None }, stdout_tty: tty && !target_stderr, stderr_tty: tty && target_stderr, target_stderr, tty_only: false, pat: pat.clone(), also_other: false, repeat: 1, literal: Some(k), tty_only_first: k % 2 == 1, refuse_one: false, via_config: k % 3 == 2, extra_env: vec![], threads: 0 };
                         let t3 = tmp.clone();
                         run.eval_one("literal-args", &cell, &move |c: &Cell, o: &mut Obs| check_cell(&t3, c, o));
                     }
@@ -888,6 +1037,13 @@ pub fn replay(part: &str, case: serde_json::Value) -> Option<CaseResult> {
         }
         "styles" | "style-pairs" => Some(check_style(&serde_json::from_value(case).ok()?, &mut Obs::default())),
         "interleave" => Some(check_interleave(&serde_json::from_value(case).ok()?, &mut Obs::default())),
+        "threads" => {
+            let tmp = std::env::temp_dir().join(format!("lv-replay-{}", std::process::id()));
+            std::fs::create_dir_all(&tmp).ok()?;
+            let r = check_threads(&tmp, &serde_json::from_value(case).ok()?, &mut Obs::default());
+            let _ = std::fs::remove_dir_all(&tmp);
+            Some(r)
+        }
         "shared-pipe" => {
             let tmp = std::env::temp_dir().join(format!("lv-replay-{}", std::process::id()));
             std::fs::create_dir_all(&tmp).ok()?;
@@ -902,7 +1058,7 @@ pub fn replay(part: &str, case: serde_json::Value) -> Option<CaseResult> {
 pub fn meta() -> EvidenceMeta {
     EvidenceMeta {
         level: "exploration",
-        rule: "matrix (exhaustive every run): NO_COLOR, CLICOLOR, CLICOLOR_FORCE each in {unset,\"0\",set (spelled 1/true/yes/on/2/TRUE/x)} x stdout in {pty,pipe} x stderr in {pty,pipe} x target x tty_only = 432 child processes, the parent allocates raw-mode ptys with openpty and reads both streams to EOF; the child ends with _exit right after its last append (no farewell flush); per cell the builder is told tty_only before or after the target, the encoder may refuse one record in the middle (later records must still appear), a generated pattern (a highlight group around generated structure, width specs around highlights, nested groups) and five records, one per level; oracle: nothing on the non-target stream; nothing on the target if tty_only and the target is not a terminal, else the reference rendering of the five records after stripping escape sequences; escape sequences (each matching ESC [ digits(;digits)* m) present iff colour is enabled, and then exactly one per style request of the pattern, in its place between the text pieces by the statement's cascade (cells with NO_COLOR=\"0\" or CLICOLOR_FORCE=\"0\" accept both readings), last sequence a reset. literal-args (exhaustive, 60 children): a sixth record whose message is an argument-free literal (short, 4 kB after a line break, 9 kB single line, empty, multi-byte) x target x pty/pipe x {m} / {m}{n} / {h({m})}{n}; styles (exhaustive): AnsiWriter<Vec<u8>>::set_style for all 243 styles after a previous style: exactly one well-formed SGR sequence which a harness SGR interpreter maps from any prior state to exactly the requested attributes; random style pairs and write/set_style interleavings (bytes unchanged). non-trivial = a cell where tty-ness and the colour decision disagree or tty_only meets a pipe / NO_COLOR; a style with all three attributes set".into(),
+        rule: "matrix (exhaustive every run): NO_COLOR, CLICOLOR, CLICOLOR_FORCE each in {unset,\"0\",set (spelled 1/true/yes/on/2/TRUE/x)} x stdout in {pty,pipe} x stderr in {pty,pipe} x target x tty_only = 432 child processes, the parent allocates raw-mode ptys with openpty and reads both streams to EOF; the child ends with _exit right after its last append (no farewell flush); per cell the builder is told tty_only before or after the target, the encoder may refuse one record in the middle (later records must still appear), a generated pattern (a highlight group around generated structure, width specs around highlights, nested groups) and five records, one per level; oracle: nothing on the non-target stream; nothing on the target if tty_only and the target is not a terminal, else the reference rendering of the five records after stripping escape sequences; escape sequences (each matching ESC [ digits(;digits)* m) present iff colour is enabled, and then exactly one per style request of the pattern, in its place between the text pieces by the statement's cascade (cells with NO_COLOR=\"0\" or CLICOLOR_FORCE=\"0\" accept both readings), last sequence a reset. Every cell carries a distractor environment (TERM=dumb / unset / empty, FORCE_COLOR, COLORTERM, CI, look-alike names) that has no say in the policy; a third of the cells build the appender through the console deserializer. threads: 2-8 threads log 12-40 rounds of the five records through ONE appender at the same time (slow Display), colour forced and disabled, pipe and pty: every record arrives whole, the right number of times. literal-args (exhaustive, 60 children): a sixth record whose message is an argument-free literal (short, 4 kB after a line break, 9 kB single line, empty, multi-byte) x target x pty/pipe x {m} / {m}{n} / {h({m})}{n}; styles (exhaustive): AnsiWriter<Vec<u8>>::set_style for all 243 styles after a previous style: exactly one well-formed SGR sequence which a harness SGR interpreter maps from any prior state to exactly the requested attributes; random style pairs and write/set_style interleavings (bytes unchanged). non-trivial = a cell where tty-ness and the colour decision disagree or tty_only meets a pipe / NO_COLOR; a style with all three attributes set".into(),
         assumptions: vec!["highlight colours themselves are not asserted (documentation and code disagree)".into(), "ptys from libc::openpty; without them the check exits 2, it does not pass".into()],
         mutants_caught: vec![],
     }
